@@ -343,6 +343,7 @@ func c15CompositeCases(rng *lib.Rng, n int, avoid func(string) bool) []fCase {
 	var out []fCase
 	for len(out) < n {
 		var u unit
+		var topUnits []unit
 		switch k := rng.Intn(10); {
 		case k < 3:
 			u = g.block(4, 1)
@@ -386,11 +387,23 @@ func c15CompositeCases(rng *lib.Rng, n int, avoid func(string) bool) []fCase {
 				us = append(us, x)
 			}
 			u = seqUnit(us)
+			topUnits = us
 		}
 		if u.ndirs < 1 || u.ndirs > 6 {
 			continue
 		}
-		out = append(out, fCase{Mode: "fmt", Ctrl: u.ctrl, Args: u.gen(), Sweep: false})
+		cs := fCase{Mode: "fmt", Ctrl: u.ctrl, Sweep: false}
+		if len(topUnits) > 1 {
+			// keep the top-level structure so that a disagreement can be shrunk unit by unit
+			for _, tu := range topUnits {
+				a := tu.gen()
+				cs.Units = append(cs.Units, fUnit{Ctrl: tu.ctrl, Args: a})
+				cs.Args = append(cs.Args, a...)
+			}
+		} else {
+			cs.Args = u.gen()
+		}
+		out = append(out, cs)
 	}
 	return out
 }
